@@ -25,7 +25,7 @@ rundemo() {
     pkg=$(dirname "$f")
     names=$(grep -ho '^func Test[A-Za-z0-9_]*' "$out/demo/$f" | sed 's/^func //' | paste -sd'|')
     echo "-- go test -run ^($names)\$ ./$pkg/" >> $log
-    (cd $wt && go test -mod=mod -vet=off -count=1 -run "^($names)\$" ./$pkg/) >> $log 2>&1 || rc=1
+    (cd $wt && go test -mod=mod -vet=off -count=1 ${SEEDTAGS:+-tags $SEEDTAGS} -run "^($names)\$" ./$pkg/) >> $log 2>&1 || rc=1
   done
   return $rc
 }
